@@ -586,17 +586,6 @@ Proof.
     apply steps_bytes; [intros _; cbn; reflexivity | intros ->; reflexivity].
 Qed.
 
-(* what the glue does to a signer: without a public key the address is dropped *)
-Definition norm_signer (s : wsigner) : wsigner := if is_nil (sg_pk s) then signer0 else s.
-(* the decidable guard of the _partial theorems: "a signer without a public key has no address" *)
-Definition signer_consistent (s : wsigner) : bool := negb (is_nil (sg_pk s) && negb (is_nil (sg_addr s))).
-
-Lemma norm_signer_consistent : forall s, signer_consistent s = true -> norm_signer s = s.
-Proof.
-  intros [a k] H. unfold signer_consistent, norm_signer in *. cbn [sg_pk sg_addr] in *.
-  destruct k; cbn [is_nil] in *; [|reflexivity]. destruct a; cbn in H; [reflexivity|discriminate].
-Qed.
-
 Section WithPubKeysProofs.
 Variable pk_canon : bytes -> option bytes.
 
@@ -605,18 +594,18 @@ Definition wf_signer (s : wsigner) : Prop :=
   (sg_pk s = [] \/ pk_canon (sg_pk s) = Some (sg_pk s)).
 
 Lemma signer_glue : forall s, wf_signer s ->
-  signer_from_pb pk_canon (Some (signer_to_pb s)) = Some (norm_signer s).
+  signer_from_pb pk_canon (Some (signer_to_pb s)) = Some s.
 Proof.
-  intros [a k] (_ & _ & _ & Hc). cbn [sg_pk] in Hc. unfold signer_to_pb, norm_signer, signer_from_pb. cbn [sg_pk sg_addr].
-  destruct k as [|k0 k']; cbn [is_nil].
-  - reflexivity.
-  - cbn [sg_pk is_nil sg_addr]. destruct Hc as [Hc|Hc]; [discriminate|]. rewrite Hc. reflexivity.
+  intros [a k] (_ & _ & _ & Hc). cbn [sg_pk] in Hc. unfold signer_to_pb, signer_from_pb. cbn [sg_pk sg_addr].
+  destruct k as [|k0 k']; cbn [is_nil sg_pk sg_addr].
+  - destruct a; reflexivity.
+  - destruct Hc as [Hc|Hc]; [discriminate|]. rewrite Hc. reflexivity.
 Qed.
 
 Lemma signer_to_pb_sz : forall s, sz (sg_addr s) -> sz (sg_pk s) -> sz (sg_addr (signer_to_pb s)) /\ sz (sg_pk (signer_to_pb s)).
 Proof.
   intros s Ha Hk. unfold signer_to_pb. destruct (is_nil (sg_pk s)); [|split; assumption].
-  cbn. unfold sz, len, two64. cbn. lia.
+  cbn [sg_addr sg_pk]. split; [assumption|]. unfold sz, len, two64. cbn. lia.
 Qed.
 
 Definition wf_signed_header (s : wsigned_header) : Prop :=
@@ -635,9 +624,8 @@ Lemma psh_step_signer : forall a b,
   | None => None end.
 Proof. reflexivity. Qed.
 
-Lemma signed_header_norm : forall s, wf_signed_header s ->
-  dec_signed_header pk_canon (enc_signed_header s) =
-  Some {| sh_header := sh_header s; sh_sig := sh_sig s; sh_signer := norm_signer (sh_signer s) |}.
+Lemma signed_header_dec : forall s, wf_signed_header s ->
+  dec_signed_header pk_canon (enc_signed_header s) = Some s.
 Proof.
   intros [h sg sn] (Hh & Hhs & Hs & Hn). cbn [sh_header sh_sig sh_signer] in *.
   pose proof Hn as (Ha & Hk & Hes & _).
@@ -659,13 +647,13 @@ Proof.
   rewrite Hd. cbn [psh_header psh_signer psh_sig]. rewrite (signer_glue sn Hn). reflexivity.
 Qed.
 
-Lemma signed_header_roundtrip_guarded : forall s, wf_signed_header s -> signer_consistent (sh_signer s) = true ->
+Lemma signed_header_roundtrip : forall s, wf_signed_header s ->
   marshal_signed_header s = Some (enc_signed_header s) /\
   dec_signed_header pk_canon (enc_signed_header s) = Some s.
 Proof.
-  intros s H Hc. split.
+  intros s H. split.
   - unfold marshal_signed_header. destruct H as ((_ & _ & _ & _ & _ & _ & _ & _ & _ & _ & _ & _ & Hu) & _). rewrite Hu. reflexivity.
-  - rewrite (signed_header_norm s H). rewrite (norm_signer_consistent _ Hc). destruct s; reflexivity.
+  - apply signed_header_dec. exact H.
 Qed.
 
 Definition wf_signed_data (s : wsigned_data) : Prop :=
@@ -684,9 +672,8 @@ Lemma psd_step_signer : forall a b,
   | None => None end.
 Proof. reflexivity. Qed.
 
-Lemma signed_data_norm : forall s, wf_signed_data s ->
-  dec_signed_data pk_canon (enc_signed_data s) =
-  Some {| sd_data := sd_data s; sd_sig := sd_sig s; sd_signer := norm_signer (sd_signer s) |}.
+Lemma signed_data_dec : forall s, wf_signed_data s ->
+  dec_signed_data pk_canon (enc_signed_data s) = Some s.
 Proof.
   intros [d sg sn] (Hh & Hhs & Hs & Hn). cbn [sd_data sd_sig sd_signer] in *.
   pose proof Hn as (Ha & Hk & Hes & _).
@@ -708,13 +695,13 @@ Proof.
   rewrite Hd. cbn [psd_data psd_signer psd_sig]. rewrite (signer_glue sn Hn). reflexivity.
 Qed.
 
-Lemma signed_data_roundtrip_guarded : forall s, wf_signed_data s -> signer_consistent (sd_signer s) = true ->
+Lemma signed_data_roundtrip : forall s, wf_signed_data s ->
   marshal_signed_data s = Some (enc_signed_data s) /\
   dec_signed_data pk_canon (enc_signed_data s) = Some s.
 Proof.
-  intros s H Hc. split.
+  intros s H. split.
   - unfold marshal_signed_data. destruct H as (Hd & _). rewrite (wf_data_meta_ok _ Hd). reflexivity.
-  - rewrite (signed_data_norm s H). rewrite (norm_signer_consistent _ Hc). destruct s; reflexivity.
+  - apply signed_data_dec. exact H.
 Qed.
 End WithPubKeysProofs.
 
@@ -900,45 +887,8 @@ Proof.
   rewrite E' in D1. rewrite D1 in D2. inversion D2. reflexivity.
 Qed.
 
-(* a refuting witness for the unguarded signed-header / signed-data round trip *)
-Definition sh_witness : wsigned_header :=
-  {| sh_header := header0; sh_sig := []; sh_signer := {| sg_addr := [1]; sg_pk := [] |} |}.
-Definition sd_witness : wsigned_data :=
-  {| sd_data := data0; sd_sig := []; sd_signer := {| sg_addr := [1]; sg_pk := [] |} |}.
-
-Lemma wf_sh_witness : forall pkc, wf_signed_header pkc sh_witness.
-Proof.
-  intro pkc. unfold wf_signed_header, wf_header, wf_version, wf_signer, sz, len, two64. cbn.
-  repeat split; try lia; try reflexivity; auto.
-Qed.
-
-Lemma signed_header_roundtrip_fails : forall pkc,
-  exists s, wf_signed_header pkc s /\ marshal_signed_header s = Some (enc_signed_header s) /\
-            exists s', dec_signed_header pkc (enc_signed_header s) = Some s' /\ s' <> s.
-Proof.
-  intro pkc. exists sh_witness. split; [apply wf_sh_witness|]. split; [reflexivity|].
-  eexists. split; [vm_compute; reflexivity|]. discriminate.
-Qed.
-
-Lemma wf_sd_witness : forall pkc, wf_signed_data pkc sd_witness.
-Proof.
-  intro pkc. unfold wf_signed_data, wf_data, wf_signer, sz, len, two64. cbn.
-  repeat split; try lia; try reflexivity; try (intros; discriminate); try constructor; auto.
-Qed.
-
-Lemma signed_data_roundtrip_fails : forall pkc,
-  exists s, wf_signed_data pkc s /\ marshal_signed_data s = Some (enc_signed_data s) /\
-            exists s', dec_signed_data pkc (enc_signed_data s) = Some s' /\ s' <> s.
-Proof.
-  intro pkc. exists sd_witness. split; [apply wf_sd_witness|]. split; [reflexivity|].
-  eexists. split; [vm_compute; reflexivity|]. discriminate.
-Qed.
-
 (* ---------------------------------------------------------------------------------------------- *)
 (* hashes and signatures after the round trip                                                      *)
-
-Lemma norm_signer_pk : forall s, sg_pk (norm_signer s) = sg_pk s.
-Proof. intros [a k]. unfold norm_signer. cbn [sg_pk]. destruct k; reflexivity. Qed.
 
 Lemma hash_and_signature_stable :
   forall (sha : bytes -> bytes) (verify : bytes -> bytes -> bytes -> bool) pk_canon s s',
@@ -947,8 +897,8 @@ Lemma hash_and_signature_stable :
   verify (sg_pk (sh_signer s')) (header_sig_payload (sh_header s')) (sh_sig s') =
   verify (sg_pk (sh_signer s)) (header_sig_payload (sh_header s)) (sh_sig s).
 Proof.
-  intros sha verify pkc s s' Hw Hd. rewrite (signed_header_norm pkc s Hw) in Hd. inversion Hd; subst; clear Hd.
-  cbn [sh_header sh_sig sh_signer]. rewrite norm_signer_pk. split; reflexivity.
+  intros sha verify pkc s s' Hw Hd. rewrite (signed_header_dec pkc s Hw) in Hd. inversion Hd; subst; clear Hd.
+  split; reflexivity.
 Qed.
 
 Lemma data_hash_and_signature_stable :
@@ -959,8 +909,8 @@ Lemma data_hash_and_signature_stable :
   verify (sg_pk (sd_signer s')) (data_sig_payload (sd_data s')) (sd_sig s') =
   verify (sg_pk (sd_signer s)) (data_sig_payload (sd_data s)) (sd_sig s).
 Proof.
-  intros sha verify pkc s s' Hw Hd. rewrite (signed_data_norm pkc s Hw) in Hd. inversion Hd; subst; clear Hd.
-  cbn [sd_data sd_sig sd_signer]. rewrite norm_signer_pk. repeat split; reflexivity.
+  intros sha verify pkc s s' Hw Hd. rewrite (signed_data_dec pkc s Hw) in Hd. inversion Hd; subst; clear Hd.
+  repeat split; reflexivity.
 Qed.
 
 (* ---------------------------------------------------------------------------------------------- *)
@@ -1135,4 +1085,208 @@ Lemma batch_decode_total_stable : forall bs, dec_batch bs = None \/
 Proof.
   intro bs. destruct (dec_batch bs) as [l|] eqn:E; [right|left; reflexivity].
   exists l. split; [reflexivity|]. apply (batch_decode_stable bs l E).
+Qed.
+
+(* ---------------------------------------------------------------------------------------------- *)
+(* decode stability for State, SignedHeader, SignedData                                            *)
+
+Lemma wf_header_of : forall h, inv_header h -> sizes_header h -> wf_header h.
+Proof.
+  intros h (I1 & I2 & I3 & I4) (S4 & S5 & S6 & S7 & S8 & S9 & S10 & S11 & S12).
+  unfold wf_header. repeat split; try assumption; apply I1.
+Qed.
+
+Lemma wf_data_of : forall d, inv_data d -> sizes_data d -> wf_data d.
+Proof.
+  intros d I [S1 S2]. split; [|exact S2]. intros m Hm. destruct (S1 m Hm) as [[Sa Sb] Sc]. destruct (I m Hm) as (I1 & I2 & I3).
+  split; [|exact Sc]. unfold wf_metadata. repeat split; assumption.
+Qed.
+
+Lemma unix_norm_wf : forall s n, wf_time (unix_norm s n).
+Proof.
+  intros s n. unfold wf_time, unix_norm, wrap64, two63z, two64z. cbn [fst snd].
+  split; Z.div_mod_to_equations; lia.
+Qed.
+
+Definition inv_pstate (p : pb_state) : Prop :=
+  wf_version (ps_version p) /\ utf8_valid (ps_chain p) = true /\ ps_initial p < two64 /\ ps_last_height p < two64 /\ ps_da p < two64.
+
+Ltac c5 := (split; [|split; [|split; [|split]]]).
+
+Lemma pstate_step_inv : forall a f a', inv_pstate a -> fld_ok f -> pstate_step a f = Some a' -> inv_pstate a'.
+Proof.
+  intros a [num p] a' (H1 & H2 & H3 & H4 & H5) Hf H.
+  destruct p; cbn [pstate_step] in H; try (inversion H; subst; c5; assumption).
+  - cbn in Hf. split_step H; inversion H; subst; unfold inv_pstate; cbn; c5; assumption.
+  - split_step H; try discriminate; inversion H; subst; unfold inv_pstate; cbn; c5; try assumption.
+    eapply (dec_msg_inv _ wf_version version_step version_step_inv); eauto.
+Qed.
+
+Lemma pstate0_inv : inv_pstate pstate0.
+Proof. unfold inv_pstate, wf_version, two64; cbn. repeat split; lia. Qed.
+
+Definition sizes_state (s : wstate) : Prop := sz (s_chain s) /\ sz (s_last_results s) /\ sz (s_app s).
+
+Lemma state_decode_stable : forall bs s, dec_state bs = Some s -> sizes_state s ->
+  marshal_state s = Some (enc_state s) /\ dec_state (enc_state s) = Some s.
+Proof.
+  intros bs s H (S1 & S2 & S3). apply state_roundtrip. unfold dec_state in H.
+  destruct (dec_msg pstate_step pstate0 bs) as [p|] eqn:E; [|discriminate]. inversion H; subst; clear H.
+  pose proof (dec_msg_inv _ inv_pstate pstate_step pstate_step_inv pstate0 bs p pstate0_inv E) as (I1 & I2 & I3 & I4 & I5).
+  unfold state_from_pb, sizes_state in *. cbn [s_version s_chain s_initial s_last_height s_time s_da s_last_results s_app] in *.
+  unfold wf_state. cbn [s_version s_chain s_initial s_last_height s_time s_da s_last_results s_app].
+  repeat split; try assumption; try apply I1.
+  all: destruct (ps_time p) as [[sec ns]|]; [apply unix_norm_wf | unfold zero_time, two63z; cbn; lia].
+Qed.
+
+Lemma state_decode_total_stable : forall bs, dec_state bs = None \/
+  exists s, dec_state bs = Some s /\
+            (sizes_state s -> marshal_state s = Some (enc_state s) /\ dec_state (enc_state s) = Some s).
+Proof.
+  intro bs. destruct (dec_state bs) as [s|] eqn:E; [right|left; reflexivity].
+  exists s. split; [reflexivity|]. apply (state_decode_stable bs s E).
+Qed.
+
+Section StableSigned.
+Variable pk_canon : bytes -> option bytes.
+(* crypto.MarshalPublicKey output re-parses to itself *)
+Hypothesis pk_canon_idem : forall raw c, pk_canon raw = Some c -> pk_canon c = Some c.
+
+Lemma signer_from_pb_canon : forall o s, signer_from_pb pk_canon o = Some s ->
+  sg_pk s = [] \/ pk_canon (sg_pk s) = Some (sg_pk s).
+Proof.
+  intros o s H. unfold signer_from_pb in H. destruct o as [x|]; [|inversion H; left; reflexivity].
+  destruct (is_nil (sg_pk x)).
+  - destruct (is_nil (sg_addr x)); inversion H; left; reflexivity.
+  - destruct (pk_canon (sg_pk x)) as [c|] eqn:E; [|discriminate]. inversion H; subst. right. cbn [sg_pk]. eapply pk_canon_idem; eauto.
+Qed.
+
+Definition sizes_signer (s : wsigner) : Prop := sz (sg_addr s) /\ sz (sg_pk s) /\ sz (enc_signer (signer_to_pb s)).
+
+Definition inv_psh (p : pb_signed_header) : Prop := forall h, psh_header p = Some h -> inv_header h.
+
+Lemma psh_step_inv : forall a f a', inv_psh a -> fld_ok f -> psh_step a f = Some a' -> inv_psh a'.
+Proof.
+  intros a [num p] a' Ha Hf H.
+  destruct p; cbn [psh_step] in H; try (inversion H; subst; assumption).
+  split_step H; try discriminate; inversion H; subst; unfold inv_psh in *; cbn [psh_header]; try assumption.
+  intros h Hh. inversion Hh; subst.
+  eapply (dec_msg_inv _ inv_header header_step header_step_inv); [|eassumption].
+  destruct (psh_header a) as [h0|]; [apply Ha; reflexivity | apply header0_inv].
+Qed.
+
+Definition sizes_signed_header (s : wsigned_header) : Prop :=
+  sizes_header (sh_header s) /\ sz (enc_header (sh_header s)) /\ sz (sh_sig s) /\ sizes_signer (sh_signer s).
+
+Lemma signed_header_decode_stable : forall bs s, dec_signed_header pk_canon bs = Some s -> sizes_signed_header s ->
+  marshal_signed_header s = Some (enc_signed_header s) /\ dec_signed_header pk_canon (enc_signed_header s) = Some s.
+Proof.
+  intros bs s H (S1 & S2 & S3 & S4 & S5 & S6). apply signed_header_roundtrip. unfold dec_signed_header in H.
+  destruct (dec_msg psh_step psh0 bs) as [p|] eqn:E; [|discriminate].
+  assert (I : inv_psh p).
+  { eapply (dec_msg_inv _ inv_psh psh_step psh_step_inv psh0); [|exact E]. intros h Hh. discriminate. }
+  destruct (psh_header p) as [h|] eqn:Eh; [|discriminate].
+  destruct (signer_from_pb pk_canon (psh_signer p)) as [sg|] eqn:Es; [|discriminate].
+  inversion H; subst; clear H. cbn [sh_header sh_sig sh_signer] in *.
+  unfold wf_signed_header, wf_signer. cbn [sh_header sh_sig sh_signer].
+  split; [apply wf_header_of; [apply I; exact Eh | assumption]|].
+  split; [assumption|]. split; [assumption|]. split; [assumption|]. split; [assumption|]. split; [assumption|].
+  eapply signer_from_pb_canon; eauto.
+Qed.
+
+Definition inv_psd (p : pb_signed_data) : Prop := forall d, psd_data p = Some d -> inv_data d.
+
+Lemma data0_inv : inv_data data0.
+Proof. intros m Hm. discriminate. Qed.
+
+Lemma psd_step_inv : forall a f a', inv_psd a -> fld_ok f -> psd_step a f = Some a' -> inv_psd a'.
+Proof.
+  intros a [num p] a' Ha Hf H.
+  destruct p; cbn [psd_step] in H; try (inversion H; subst; assumption).
+  split_step H; try discriminate; inversion H; subst; unfold inv_psd in *; cbn [psd_data]; try assumption.
+  intros d Hd. inversion Hd; subst.
+  eapply (dec_msg_inv _ inv_data data_step data_step_inv); [|eassumption].
+  destruct (psd_data a) as [d0|]; [apply Ha; reflexivity | apply data0_inv].
+Qed.
+
+Definition sizes_signed_data (s : wsigned_data) : Prop :=
+  sizes_data (sd_data s) /\ sz (enc_data (sd_data s)) /\ sz (sd_sig s) /\ sizes_signer (sd_signer s).
+
+Lemma signed_data_decode_stable : forall bs s, dec_signed_data pk_canon bs = Some s -> sizes_signed_data s ->
+  marshal_signed_data s = Some (enc_signed_data s) /\ dec_signed_data pk_canon (enc_signed_data s) = Some s.
+Proof.
+  intros bs s H (S1 & S2 & S3 & S4 & S5 & S6). apply signed_data_roundtrip. unfold dec_signed_data in H.
+  destruct (dec_msg psd_step psd0 bs) as [p|] eqn:E; [|discriminate].
+  assert (I : inv_psd p).
+  { eapply (dec_msg_inv _ inv_psd psd_step psd_step_inv psd0); [|exact E]. intros d Hd. discriminate. }
+  destruct (signer_from_pb pk_canon (psd_signer p)) as [sg|] eqn:Es; [|discriminate].
+  inversion H; subst; clear H. cbn [sd_data sd_sig sd_signer] in *.
+  unfold wf_signed_data, wf_signer. cbn [sd_data sd_sig sd_signer].
+  split; [apply wf_data_of; [|assumption]; destruct (psd_data p) as [d|] eqn:Ed; [apply I; exact Ed | apply data0_inv]|].
+  split; [assumption|]. split; [assumption|]. split; [assumption|]. split; [assumption|]. split; [assumption|].
+  eapply signer_from_pb_canon; eauto.
+Qed.
+
+Lemma signed_header_decode_total_stable : forall bs, dec_signed_header pk_canon bs = None \/
+  exists s, dec_signed_header pk_canon bs = Some s /\
+            (sizes_signed_header s -> marshal_signed_header s = Some (enc_signed_header s) /\
+                                      dec_signed_header pk_canon (enc_signed_header s) = Some s).
+Proof.
+  intro bs. destruct (dec_signed_header pk_canon bs) as [s|] eqn:E; [right|left; reflexivity].
+  exists s. split; [reflexivity|]. apply (signed_header_decode_stable bs s E).
+Qed.
+
+Lemma signed_data_decode_total_stable : forall bs, dec_signed_data pk_canon bs = None \/
+  exists s, dec_signed_data pk_canon bs = Some s /\
+            (sizes_signed_data s -> marshal_signed_data s = Some (enc_signed_data s) /\
+                                    dec_signed_data pk_canon (enc_signed_data s) = Some s).
+Proof.
+  intro bs. destruct (dec_signed_data pk_canon bs) as [s|] eqn:E; [right|left; reflexivity].
+  exists s. split; [reflexivity|]. apply (signed_data_decode_stable bs s E).
+Qed.
+End StableSigned.
+
+(* ---------------------------------------------------------------------------------------------- *)
+(* fuel: the group-skipping loop and the cursor loop never run out of fuel when fuel > input length *)
+
+Lemma skip_group_fuel_indep : forall f1 f2 st lvl bs, (length bs < f1)%nat -> (length bs < f2)%nat ->
+  skip_group f1 st lvl bs = skip_group f2 st lvl bs.
+Proof.
+  induction f1 as [|f1 IH]; intros f2 st lvl bs H1 H2; [lia|].
+  destruct f2 as [|f2]; [lia|]. cbn [skip_group].
+  destruct (read_tag_group bs) as [[[num wt] r0]|] eqn:ET; [|reflexivity].
+  apply read_tag_group_shrinks in ET.
+  destruct (wt =? 0).
+  { destruct (dec_varint r0) as [[x r1]|] eqn:E1; [|reflexivity].
+    apply dec_varint_shrinks in E1. apply IH; lia. }
+  destruct (wt =? 1).
+  { destruct (take 8 r0) as [[x r1]|] eqn:E1; [|reflexivity].
+    apply take_shrinks in E1. apply IH; lia. }
+  destruct (wt =? 2).
+  { destruct (dec_varint r0) as [[l r1]|] eqn:E1; [|reflexivity].
+    destruct (take l r1) as [[x r2]|] eqn:E2; [|reflexivity].
+    apply dec_varint_shrinks in E1. apply take_shrinks in E2. apply IH; lia. }
+  destruct (wt =? 3).
+  { destruct (lvl <=? group_depth); [|reflexivity]. apply IH; lia. }
+  destruct (wt =? 4).
+  { destruct st as [|top st']; [reflexivity|].
+    destruct (num =? top); [|reflexivity].
+    destruct st' as [|s2 st'']; [reflexivity|]. apply IH; lia. }
+  destruct (wt =? 5).
+  { destruct (take 4 r0) as [[x r1]|] eqn:E1; [|reflexivity].
+    apply take_shrinks in E1. apply IH; lia. }
+  reflexivity.
+Qed.
+
+Lemma cursor_fuel_indep : forall f1 f2 bs, (length bs <= f1)%nat -> (length bs <= f2)%nat ->
+  dec_cursor_fuel f1 bs = dec_cursor_fuel f2 bs.
+Proof.
+  induction f1 as [|f1 IH]; intros f2 bs H1 H2.
+  - destruct bs; [destruct f2; reflexivity | cbn in H1; lia].
+  - destruct bs as [|b t]; [destruct f2; reflexivity|].
+    destruct f2 as [|f2]; [cbn in H2; lia|].
+    cbn [dec_cursor_fuel].
+    destruct t as [|b1 [|b2 [|b3 r]]]; try reflexivity.
+    destruct (take (b + 256 * b1 + 65536 * b2 + 16777216 * b3) r) as [[e r']|] eqn:E; [|reflexivity].
+    apply take_shrinks in E. cbn [length] in *. rewrite (IH f2 r'); [reflexivity | lia | lia].
 Qed.
